@@ -5,7 +5,7 @@
     stored with the request its id names (i.e. the pair the SSO endpoint persisted), the logout endpoint only to the first
     SingleLogoutService location registered for the issuer. *)
 From Saml Require Import Base.Bytes Idp.FactTypes Gen.Facts Gen.Pure Core.Acs Idp.Sso Proofs.SsoProofs Proofs.SsoAccept
-  Idp.Callback Proofs.CallbackProofs Idp.Logout Proofs.LogoutProofs.
+  Idp.Callback Proofs.CallbackProofs Idp.Logout Proofs.LogoutProofs Proofs.EndToEnd.
 
 Section C02.
 Variable e_form : option form.
@@ -46,6 +46,18 @@ Qed.
 Theorem C02_target_function : forall a s, can_req e_form decode = Some a -> can_sp e_form decode lookup = Some s ->
   target = GetAcsUrlAndBindingForResponse (sp_acs s) (a_binding a).
 Proof. intros a s Ea Es. unfold can_target. now rewrite Ea, Es. Qed.
+(** an accepted request of the current tree hands exactly one record to the storage, and it can be answered: a non-empty
+    registered consumer URL with a supported binding, the request's own RelayState and ID, the provider's application *)
+Theorem C02_accepted_record : forall st id, handler sso_steps = Done st [RLogin id] ->
+  exists k, created st = [k] /\ create k = Some id /\
+            c_acs k <> [] /\ binding_supported (c_binding k) = true /\ (c_acs k, c_binding k) = target /\
+            exists f a s, e_form = Some f /\ can_req e_form decode = Some a /\ can_sp e_form decode lookup = Some s /\
+                          c_relay k = f_relay f /\ c_app k = sp_id s /\ c_reqid k = a_id a.
+Proof.
+  intros st id H.
+  apply (accepted_record e_form decode lookup verify_redirect verify_post instant_of now create want_signed sso_locs entity_id cert_ok sso_steps st id);
+    [exact current_chain_wf8|vm_compute; reflexivity|exact H].
+Qed.
 End C02.
 
 
@@ -99,9 +111,23 @@ Proof.
   exists f, q, i, sp. rewrite Es. split; [reflexivity|split; [exact Ed|split; [exact Ei|split; [exact El|split; reflexivity]]]].
 Qed.
 
+(** end to end: when the record the callback finds stores what the SSO handler handed over ([stores]), the callback's
+    reply -- Success or not -- goes to that registered consumer URL by that binding (auto-submit form for POST, redirect for
+    Redirect), with that request's RelayState, InResponseTo that request's ID *)
+Theorem C02_end_to_end : forall k rec form_id lookup_req app_entity userinfo cert_ok sign_ok,
+  stores k rec -> c_acs k <> [] -> binding_supported (c_binding k) = true ->
+  form_id <> [] -> lookup_req form_id = Some rec -> app_entity (sr_app rec) <> None ->
+  exists d m, cs_out (callback true form_id lookup_req app_entity userinfo cert_ok sign_ok callback_seq loginResponse_seq) = [CSaml d m] /\
+    m_in_response_to m = c_reqid k /\ m_destination m = c_acs k /\
+    ((c_binding k = c_PostBinding /\ d = CPost (c_acs k) (c_relay k)) \/
+     (c_binding k = c_RedirectBinding /\ exists det, d = CRedirect (c_acs k) (c_relay k) det)).
+Proof. exact callback_answers_stored. Qed.
+
 Print Assumptions C02_sso_reply_target.
 Print Assumptions C02_target_registered.
 Print Assumptions C02_persisted_pair.
 Print Assumptions C02_target_function.
 Print Assumptions C02_callback_target.
 Print Assumptions C02_logout_target.
+Print Assumptions C02_accepted_record.
+Print Assumptions C02_end_to_end.
